@@ -1,8 +1,12 @@
 /-
-Witnesses: clauses of C01 / C02 / C03 that are FALSE of the current code for multi-column containers with
-`column-span: all` children (model `Model/PaginateCol.lean`, which agrees exactly with the real layout on these
-documents: `corpus/C01/colspan_*.json`, replayed by `py/harness/pm_col_corr.py::replay_witness`).
-The true statements are the `…_partial` theorems of `Props/C01Col.lean`, `Props/C03Col.lean` (hypothesis `NoSpan`).
+Regression theorems for the five defects of multi-column containers that were recorded as findings of C01 / C02 /
+C03 / C05 and have been repaired in /repo (`fixed:` lines of `known_findings.txt`).  Each used to be a witness
+refuting a clause on a concrete document (`corpus/C01/colspan_*.json`, `corpus/C03/columns_negative_margin_bottom.json`,
+`corpus/C05/columns_margin_top_ignored.json`); the same documents now show the correct behaviour, in the model
+(`Model/PaginateCol.lean`, which follows the repaired code) and — replayed by the corpus-first cases of
+`py/harness/pm_col_corr.py` — in the real layout.  The general statements are `Props/C01Col.lean`
+(`pages_conserve`), `Props/C03Col.lean` (`page_progress`), `Props/C03GeoCol.lean` (`paginate_line_fits`, now without
+any hypothesis on the container's bottom margin).
 -/
 import WpModel.Lemmas.ColSegPages
 import WpModel.Lemmas.ColGeo
@@ -19,15 +23,19 @@ def shownLines : PagesOut → Option (List (List (Nat × Nat)))
   | .ok ps => some (ps.map fun (p : CPage) => PMC.fragLines p.root)
   | _ => none
 
-/-! ### 1. `column-span-loses-following-content`
+/-- Does the pagination (when it returns pages) show exactly the lines of the document? -/
+def conservesB (d : CDoc) (fuel : Nat) : Bool :=
+  match paginateCol d fuel with
+  | .ok pages => decide (PMC.pagesLines pages = PMC.linesFrom d.root none)
+  | _ => true
+
+/-! ### 1. `column-span-loses-following-content` (fixed by b24b457)
 
 `<body style="margin-top:8px"><div style="column-count:2;column-gap:0;column-fill:auto"><p>9 lines of 12px</p>
-<p style="column-span:all">1 line</p></div>` on 192×72px pages.  The 9 lines fit in two columns of 64px (5 + 4).
-The group before the span is balanced (`index < columns_and_blocks[-1][0]`); the balancing loop reaches
-`max_height`, sets `stop_rendering = True` — although at that height everything is rendered — and
-`if stop_rendering: break` leaves the loop before the spanning paragraph; `column_skip_stack` is `None`, `break_page`
-is false, so the container reports `resume_at = None`: the spanning paragraph (and anything after it in the
-container) is on no page. -/
+<p style="column-span:all">1 line</p></div>` on 192×72px pages.  The 9 lines fit in two columns of 64px (5 + 4);
+the balancing loop reaches `max_height` and sets `stop_rendering`.  The loop over the groups used to stop there with
+`resume_at = None`: the spanning paragraph was on no page.  It now stops only when the group really continues
+(`break_page or column_skip_stack is not None`): the span is laid out next, does not fit, and opens page 2. -/
 def spanLost : CDoc :=
   { pageH := 72, rootLtr := true,
     root := .block 9 { st0 with isRoot := true }
@@ -36,50 +44,19 @@ def spanLost : CDoc :=
           [.para 1 9 12 st0,
            .para 6 1 12 st0]]] }
 
-/-- One page, the 9 lines of paragraph 1, and the document is declared finished: line (6, 0) is lost. -/
-theorem span_loses_following_content :
+theorem span_keeps_following_content :
     shownLines (paginateCol spanLost 30) =
-      some [[(1, 0), (1, 1), (1, 2), (1, 3), (1, 4), (1, 5), (1, 6), (1, 7), (1, 8)]] ∧
-    PMC.linesFrom spanLost.root none =
-      [(1, 0), (1, 1), (1, 2), (1, 3), (1, 4), (1, 5), (1, 6), (1, 7), (1, 8), (6, 0)] := by
+      some [[(1, 0), (1, 1), (1, 2), (1, 3), (1, 4), (1, 5), (1, 6), (1, 7), (1, 8)], [(6, 0)]] ∧
+    conservesB spanLost 30 = true := by
   decide +kernel
 
-/-- Does the pagination (when it returns pages) show exactly the lines of the document? -/
-def conservesB (d : CDoc) (fuel : Nat) : Bool :=
-  match paginateCol d fuel with
-  | .ok pages => decide (PMC.pagesLines pages = PMC.linesFrom d.root none)
-  | _ => true
-
-theorem spanLost_not_conserved : conservesB spanLost 30 = false := by decide +kernel
-
-/-- The unrestricted conservation statement (`Props/C01Col.pages_conserve_partial` without `NoSpan`) is false. -/
-theorem pages_conserve_false :
-    ¬ ∀ (d : CDoc), PMC.NoFixedHeight d.root → PMC.WellFormed d.root → ∀ fuel pages,
-      paginateCol d fuel = .ok pages → PMC.pagesLines pages = PMC.linesFrom d.root none := by
-  intro h
-  have hN : PMC.NoFixedHeight spanLost.root := by
-    simp [spanLost, st0, PMC.NoFixedHeight, PMC.NoFixedHeightList]
-  have hW : PMC.WellFormed spanLost.root := by
-    simp [spanLost, st0, PMC.WellFormed, PMC.WellFormedList]
-  have key := spanLost_not_conserved
-  unfold conservesB at key
-  generalize hp : paginateCol spanLost 30 = out at key
-  cases out with
-  | ok pages =>
-    have := h spanLost hN hW 30 pages hp
-    simp only [this, decide_true] at key
-    cases key
-  | assertFail => cases key
-  | raised e => cases key
-  | fuel => cases key
-
-/-! ### 2. a column group dropped, the following span rendered twice (conservation and page progress)
+/-! ### 2. `column-group-dropped-span-duplicated` (fixed by b24b457)
 
 Container `height:40px; column-count:1; column-fill:auto` holding: an empty spanning block with a 1px bottom
 border, a paragraph `min-height:40px`, a spanning paragraph; 140px pages.  The column of the paragraph cannot be
-rendered after the first span (`new_child is None`: `columns = []; break_page = True`) but `stop_rendering` is
-false, so the loop goes on with the second span, renders it, and `skip_stack = {index: None}` is computed with the
-`index` of that *last* item: page 1 shows spans 3 and 5, page 2 shows span 5 again; paragraph 4 is on no page. -/
+rendered after the first span (`new_child is None`: `columns = []; break_page = True`).  The loop used to go on with
+the second span and to compute `{index: None}` with the index of that *last* item (paragraph 4 on no page, span 5 on
+two).  It now stops at the group: page 1 shows the first span, page 2 the paragraph and the second span. -/
 def groupDropped : CDoc :=
   { pageH := 140, rootLtr := true,
     root := .block 14 { st0 with isRoot := true }
@@ -90,16 +67,16 @@ def groupDropped : CDoc :=
            .para 4 1 20 { st0 with minH := 40 },
            .para 5 1 20 st0]]] }
 
-theorem group_dropped_span_twice :
-    shownLines (paginateCol groupDropped 30) = some [[(5, 0)], [(5, 0)]] ∧
-    PMC.linesFrom groupDropped.root none = [(4, 0), (5, 0)] := by
+theorem group_resumed_span_once :
+    shownLines (paginateCol groupDropped 30) = some [[], [(4, 0), (5, 0)]] ∧
+    conservesB groupDropped 30 = true := by
   decide +kernel
 
-/-! ### 3. `AttributeError` in `find_earlier_page_break` (C02: pagination is not total)
+/-! ### 3. `find-earlier-break-in-columns-attribute-error` (fixed by 3162604)
 
 A container holding one spanning paragraph of 5 lines, followed by a block `break-before: avoid` that does not
-fit: `find_earlier_page_break` goes into the container, finds a break inside the spanning paragraph and reads
-`new_child.index` — the children of a container (column boxes and spanning blocks) never get an `.index`. -/
+fit: `find_earlier_page_break` used to go into the container and to read `.index` of its children (which have
+none): `AttributeError`.  A container is no longer looked into; no earlier break exists, the block goes to page 2. -/
 def attrErr : CDoc :=
   { pageH := 90, rootLtr := true,
     root := .block 11 { st0 with isRoot := true }
@@ -110,16 +87,16 @@ def attrErr : CDoc :=
           [.block 3 st0
             [.para 1 2 10 { st0 with pt := 2, orphans := 2 }]]]] }
 
-theorem find_earlier_raises :
-    (match paginateCol attrErr 30 with | .raised e => e | _ => "") = "AttributeError" := by
+theorem find_earlier_total :
+    shownLines (paginateCol attrErr 30) = some [[(8, 0), (8, 1), (8, 2), (8, 3), (8, 4)], [(1, 0), (1, 1)]] := by
   decide +kernel
 
-/-! ### 4. a container with a negative `margin-bottom` pushes lines below the page bottom (C03 geometry)
+/-! ### 4. `columns-negative-margin-bottom-overflow` (fixed by 94e08d4)
 
 `block_box_layout` lays a finished container out a second time with `bottom_space += margin_bottom +
-padding_bottom + border_bottom_width` ("this condition and the whole relayout are probably wrong"): with
-`margin-bottom: -18px` the bottom space *shrinks* by 18px; on 81px pages the tenth line (paragraph 3, line 8) is
-placed at y = 81, bottom 90 > 81, although it is neither the first line of the page nor of its column. -/
+padding_bottom + border_bottom_width`; with `margin-bottom: -18px` the bottom space used to *shrink* by 18px and on
+81px pages the tenth line was placed at y = 81 (bottom 90).  The second layout now only happens for a positive sum:
+no line that is not first on its page or in its column ends below the page bottom. -/
 def negMargin : CDoc :=
   { pageH := 81, rootLtr := true,
     root := .block 10 { st0 with isRoot := true }
@@ -137,49 +114,22 @@ def overflowingLines (lh : Nat → Rat) (d : CDoc) (fuel : Nat) : List (Nat × N
         !l.exempt && decide (l.y + l.lineH > d.pageH * (1 + 1 / 1000000000))).map fun l => (l.para, l.line, l.y + l.lineH)
   | _ => []
 
-theorem container_negative_margin_overflows :
-    overflowingLines (fun _ => 9) negMargin 30 = [(3, 8, 90)] := by decide +kernel
+theorem container_negative_margin_fits :
+    overflowingLines (fun _ => 9) negMargin 30 = [] ∧ conservesB negMargin 30 = true := by decide +kernel
 
-/-- `C03GeoCol.paginate_line_fits` without the hypothesis on the container's bottom decorations is false. -/
-theorem line_fits_false :
-    ¬ ∀ (lh : Nat → Rat) (d : CDoc), LhOk lh d.root → ∀ fuel pages, paginateCol d fuel = .ok pages →
-      ∀ p ∈ pages, ∀ l ∈ PMC.placedLines lh p.root true,
-        l.exempt = true ∨ l.y + l.lineH ≤ d.pageH * (1 + 1 / 1000000000) := by
-  intro h
-  have key := container_negative_margin_overflows
-  unfold overflowingLines at key
-  have hl : LhOk (fun _ => (9 : Rat)) negMargin.root := by
-    simp [negMargin, LhOk, LhOkList]
-  generalize hp : paginateCol negMargin 30 = out at key
-  cases out with
-  | ok pages =>
-    have hall := h (fun _ => 9) negMargin hl 30 pages hp
-    have hnil : (pages.flatMap fun (p : CPage) =>
-        ((PMC.placedLines (fun _ => 9) p.root true).filter fun l =>
-          !l.exempt && decide (l.y + l.lineH > negMargin.pageH * (1 + 1 / 1000000000))).map
-            fun l => (l.para, l.line, l.y + l.lineH)) = [] := by
-      rw [List.flatMap_eq_nil_iff]
-      intro p hp'
-      rw [List.map_eq_nil_iff, List.filter_eq_nil_iff]
-      intro l hlm
-      rcases hall p hp' l hlm with he | hle
-      · simp [he]
-      · simp only [Bool.and_eq_true, Bool.not_eq_true', decide_eq_true_eq, not_and]
-        intro _
-        exact Rat.not_lt.mpr hle
-    simp only at key
-    rw [hnil] at key
-    cases key
-  | assertFail => cases key
-  | raised e => cases key
-  | fuel => cases key
+/-- The document satisfies the hypotheses of `C03GeoCol.paginate_line_fits` (it did not before the repair: the
+theorem then needed `margin-bottom + padding-bottom + border-bottom ≥ 0` on every container). -/
+example : PMC.DecoOk negMargin.root ∧ LhOk (fun _ => (9 : Rat)) negMargin.root := by
+  constructor
+  · simp only [negMargin, st0, PMC.DecoOk, PMC.DecoOkList, PStyle.DecoOk]
+    decide +kernel
+  · simp [negMargin, LhOk, LhOkList]
 
-/-! ### 5. the `margin-top` of a container is ignored (C05: adjoining margins)
+/-! ### 5. `columns-margin-top-ignored` (C05; fixed by 9436248)
 
-`columns_layout` does `box.position_y += collapse_margin(adjoining_margins) - box.margin_top` without the box's own
-top margin in the list (`block_container_layout` appends it first): after a 10px paragraph, a container with
-`margin-top: 10px` has its border box at y = 10, flush with the paragraph; the same box without `column-count`
-is at y = 20. -/
+`columns_layout` did `box.position_y += collapse_margin(adjoining_margins) - box.margin_top` without the box's own
+top margin in the list: after a 10px paragraph, a container with `margin-top: 10px` had its border box at y = 10.
+It is now at y = 20, like the same box without `column-count`. -/
 def afterPara (container : Bool) : CDoc :=
   { pageH := 100, rootLtr := true,
     root := .block 9 { st0 with isRoot := true } [.block 8 st0
@@ -194,8 +144,8 @@ def borderTops : PagesOut → List (List Rat)
   | .ok ps => ps.map fun (p : CPage) => (p.root.kids.flatMap (·.kids)).map fun f => f.geo.y + f.geo.mt
   | _ => []
 
-theorem container_margin_top_ignored :
-    borderTops (paginateCol (afterPara true) 10) = [[0, 10]] ∧
+theorem container_margin_top_collapses :
+    borderTops (paginateCol (afterPara true) 10) = [[0, 20]] ∧
     borderTops (paginateCol (afterPara false) 10) = [[0, 20]] := by decide +kernel
 
 end Wp.Witness.C01Col
